@@ -45,7 +45,7 @@ def _msm_true_keys(eng, universe):
     for key in universe:
         def ov(t, key=key):
             return ("const", key) if t == ("field", "identity") else None
-        s2 = SymEval(eng.ce, f, override=ov).run()
+        s2 = eng.symeval(f.qualname, override=ov)
         rets = [e for e in s2.effects if e.kind == "return" and e.handler is None]
         if len(rets) == 1 and is_const(rets[0].term):
             res[key] = bool(rets[0].term[1])
@@ -82,8 +82,15 @@ def run(eng, ctx):
         parts = name[1]
         if len(parts) == 3 and parts[0][0] == "fmt" and is_const(parts[1]) and parts[2][0] == "fmt":
             src, idx = parts[0][1], parts[2][1]
-            if src[0] == "elem" and src[1][0] == "list" and idx[0] == "elem" and idx[1][0] == "call" and idx[1][2] == ("builtin", "range"):
-                names = [x[1] for x in src[1][1] if is_const(x)]
+            src_names = None
+            if src[0] == "elem" and src[1][0] == "list":
+                src_names = [x[1] for x in src[1][1] if is_const(x)]
+            elif src[0] == "elem" and is_const(src[1]) and isinstance(src[1][1], (tuple, list)):
+                src_names = list(src[1][1])
+            elif src[0] == "elem" and src[1][0] == "gval" and isinstance(src[1][1].v, (list, tuple)):
+                src_names = list(src[1][1].v)
+            if src_names is not None and idx[0] == "elem" and idx[1][0] == "call" and idx[1][2] == ("builtin", "range"):
+                names = src_names
                 rargs = idx[1][3]
                 counter = None
                 if len(rargs) == 2 and is_const(rargs[0]) and rargs[0][1] == 1 and rargs[1][0] == "bin" and rargs[1][1] == "+" and rargs[1][3] == ("const", 1) and rargs[1][2][0] == "attr" and rargs[1][2][1] == msgp:
@@ -161,7 +168,7 @@ def run(eng, ctx):
                 return ("const", t[3][1][1] in aset)
             return None
 
-        s2 = SymEval(eng.ce, pm, override=ov).run()
+        s2 = eng.symeval(pm.qualname, override=ov)
         first = next((e for e in s2.effects if e.kind in ("return", "raise") and not e.guards), None)
         if first is not None and first.kind == "return" and is_const(first.term) and first.term[1] is None and first.seq == min(e.seq for e in s2.effects):
             continue  # guard fails: helper returns nothing
@@ -253,6 +260,10 @@ def run(eng, ctx):
                 for p in idxf:
                     v = p[1]
                     okb = v[0] == "bin" and v[1] == "+" and v[3] == ("const", 1)
+                    if not okb and v[0] == "loop":
+                        li = sh.loop_info.get(v[1], {})
+                        ends = [st.env.get(v[2]) for k, st in li.get("ends", []) if k == "continue"] + ([li.get("body_end", {}).get(v[2])] if not li.get("body_dead") else [])
+                        okb = (li.get("pre") or {}).get(v[2]) == ("const", 1) and ends and all(x == ("bin", "+", v, ("const", 1)) for x in ends)
                     ctx.check(okb, "C18.D5", ph.qualname, f"index base in {norm(e.node)[:50]}", expected="zero-based counter + 1", found=show(v)[:60], **eng.loc(ph, e.node))
     # probing loop ends on AttributeError only
     hs = [n for n in walk_no_nested(ph.node) if isinstance(n, ast.ExceptHandler)]
@@ -268,5 +279,7 @@ def run(eng, ctx):
         if counter in probes:
             e = probes[counter][3]
             appends = [x for x in se.effects if x.kind == "call" and x.term[2][0] == "attr" and x.term[2][2] == "append" and x.loops and x.loops[0] == e.loops[0] and len(x.loops) == 1]
+            if not appends and e.loops and "C" in e.loops[0].split(".")[-1][:1]:
+                appends = [e]  # a list comprehension over the range yields one entry per index, in order
             ctx.check(len(appends) == 1, "C18.D6", pm.qualname, f"{counter} loop appends once per index", expected="one append per iteration", found=f"{len(appends)} append(s)", **eng.loc(pm, e.node))
             ctx.check(counter in facts["derived_counters"], "C18.D6", pm.qualname, f"{counter} is a decoder-derived counter", expected="stored by the decoder", found=str(sorted(facts["derived_counters"])), **eng.loc(pm, e.node))
